@@ -388,6 +388,13 @@ def _check_frame(interp, c, args, before, fname):
                 from .values import Opaque
                 if not isinstance(after[path][0], Opaque):
                     bad.append(path)
+            elif '.' not in par and par in args and after[path][0] is args[par] \
+                    and not fname.rpartition(':')[2].endswith('__init__'):
+                # a new attribute set directly on a PARAMETER object (`self._cache = ...` where the constructor never
+                # made that field): a write outside the frame (a constructor is building its own object: excepted)
+                from .values import Opaque
+                if not isinstance(after[path][0], Opaque):
+                    bad.append(path)
     interp.st.oblige('%s : frame[modifies %s]' % (fname, ', '.join(declared) or 'nothing'), not bad,
                      {'kind': 'frame', 'changed_outside_frame': bad})
 
